@@ -50,6 +50,9 @@ def histories(strict=False, guaranteed_bias=False, max_ticks=40):
         "c_msg_timeout": st.one_of(st.none(), st.tuples(st.sampled_from([0.4, 2.5]), st.sampled_from(["before", "connecting", "connected"])).map(list)),
         # a burst of many small messages in one tick: more than a 256-message window's worth of newer message numbers
         # overtake whatever is still waiting for its retransmission
+        # every n-th send callback is application code that sends a follow-up guaranteed message from inside the callback
+        # (i.e. while the library is processing an ack or a timeout); 0 = none
+        "cb_sends_every": st.sampled_from([0, 0, 2, 3]),
         "burst": st.one_of(st.none(), st.none(), st.none(), st.fixed_dictionaries({
             "tick": st.integers(0, max_ticks), "side": st.sampled_from(["c", "s"]), "count": st.sampled_from([40, 257, 300, 420]),
             "size": st.sampled_from([0, 1, 8, 30]), "retry": st.sampled_from([0, 1, -1])})),
@@ -201,11 +204,24 @@ def run(ctx, c, oracle, per_step=None, link_setup=None, payload_fn=None):
                     retry = -1
                 conn = f.conns[side]
                 raises = bool(c.get("cb_raises_every")) and uid % c["cb_raises_every"] == 0
+                on_cb = None
+                if c.get("cb_sends_every") and uid % c["cb_sends_every"] == 1 and len(f.recs) < 900:
+                    def on_cb(ok, rec0, side=side, uid=uid):
+                        uid2 = 500000 + uid
+                        if side == "c":
+                            if not ch.udp.connected():
+                                return
+                            rec2 = ch.send(payload_fn(uid2, 24), retry=-1, callback=True)
+                        else:
+                            rec2 = w.server_send(ch.laddr, payload_fn(uid2, 24), retry=RetryMode(-1), callback=True, now=True)
+                        rec2.update(n=24, uid=uid2, guaranteed=True, frag_id=None)
+                        f.recs.append(rec2)
+                        f.followups = getattr(f, "followups", 0) + 1
                 if side == "c":
-                    rec = ch.send(payload_fn(uid, n), retry=retry, callback=True, api=apiname, cb_raises=raises)
+                    rec = ch.send(payload_fn(uid, n), retry=retry, callback=True, api=apiname, cb_raises=raises, on_cb=on_cb)
                     rec["frag_id"] = int(conn.seq_fragment) if n > P and "raised" not in rec else None
                 else:
-                    rec = w.server_send(ch.laddr, payload_fn(uid, n), retry=RetryMode(retry), callback=True, api=apiname, cb_raises=raises)
+                    rec = w.server_send(ch.laddr, payload_fn(uid, n), retry=RetryMode(retry), callback=True, api=apiname, cb_raises=raises, on_cb=on_cb)
                     rec["frag_id"] = None
                     if n > P:
                         w.on_server_thread(lambda rec=rec, conn=conn: rec.__setitem__("frag_id", int(conn.seq_fragment) if "raised" not in rec else None))
